@@ -59,6 +59,29 @@ def systematic():
 CLASSES = {"string", "string-valid", "optional-absent", "null-allowed", "valid"}
 
 
+def extension_cases():
+    """string properties whose `goJSONSchema` extension does not name a Go type (it only renames the field or restates that the type is not nillable): they are
+    still plain strings, and their length and pattern checks still apply - required, optional, nullable and as a named definition"""
+    from vlib.kitchen import Case
+    out = []
+    for i, ext in enumerate(({"identifier": "Renamed"}, {"nillable": False}, {"identifier": "Renamed", "nillable": False})):
+        def leaf(extra, ident, tl="string"):
+            e = dict(ext)
+            if "identifier" in e:
+                e["identifier"] = ident
+            return dict({"type": tl, "goJSONSchema": e}, **extra)
+        root = {"type": "object", "required": ["id"],
+                "properties": {"id": leaf({"minLength": 3, "maxLength": 5}, "TheID"), "nick": leaf({"pattern": "^[a-z]+$"}, "TheNick"),
+                               "alias": leaf({"maxLength": 4}, "TheAlias", ["string", "null"]), "note": {"type": "string", "maxLength": 3}}}
+        docs = [{"doc": {"id": "abcd", "nick": "bob", "alias": "al", "note": "n"}, "cls": "valid", "path": (), "expect": "ACC"},
+                {"doc": {"id": "abc", "alias": None}, "cls": "valid", "path": (), "expect": "ACC"}]
+        for k, bads in (("id", ["ab", "abcdef", ""]), ("nick", ["Bob1", "", "a b"]), ("alias", ["abcde"]), ("note", ["nnnn"])):
+            for v in bads:
+                docs.append({"doc": dict({"id": "abcd"}, **{k: v}), "cls": "string", "path": (k,), "expect": "REJ"})
+        out.append(Case("c06ext%d" % i, root, docs, fam="extension-without-type/%s" % "+".join(sorted(ext)), no_model=True, extra_imports=(i == 1)))
+    return out
+
+
 def run(ctx):
     ctx.proof_step(PROPS_FILE)
     n = 30 if ctx.tier == "quick" else 400
@@ -74,7 +97,11 @@ def run(ctx):
     ycases = [Case(c.cid + "y", c.schema, _copy.deepcopy([d for d in c.docs if "raw" not in d and not d.get("prior")]), extra_imports=True, wire="yaml", fam="yaml/" + c.fam, no_model=True)
               for c in cases if c.fam.startswith("systematic") or c.fam.startswith("overlay")]
     jcases = [Case(c.cid + "j", c.schema, _copy.deepcopy(c.docs), extra_imports=True, wire="json", fam="yaml-twin/" + c.fam, no_model=True) for c in ycases]
-    run_cases(ctx, cases + ycases + jcases, "c06")
+    from vlib.overlay import sibling_group_cases
+    from vlib.valuecheck import expect_cases
+    sg = sibling_group_cases("string", "c06") + extension_cases()
+    run_cases(ctx, cases + ycases + jcases + sg, "c06")
+    expect_cases(ctx, sg, "string constraints")
     nyv = 0
     for cy, cj in zip(ycases, jcases):
         if not (cy.build_ok and cj.build_ok):
